@@ -614,24 +614,26 @@ Proof.
     end.
 Qed.
 
-(* float -> DECIMAL(p,s), exact whenever the scaled mantissa m * 5^s fits the 53 bits of an f64 (the
-   product v * 10^s is then computed without a rounding error): the cast IS the specification
-   round_half_away(v * 10^s) of the exact binary value, an error when that does not fit DECIMAL(p,s) *)
-Lemma float_to_decimal_exact_when_representable : forall oc f d p s bits neg m e,
+(* float -> DECIMAL(p,s), exact whenever the scaled odd part of the mantissa fits the 53 bits of an
+   f64 (m = a * 2^t, a * 5^s < 2^53: the product v * 10^s is then computed without a rounding
+   error): the cast IS the specification round_half_away(v * 10^s) of the exact binary value, an
+   error when that does not fit DECIMAL(p,s) *)
+Lemma float_to_decimal_exact_when_representable : forall oc f d p s bits neg m e a t,
   std_dty d -> 0 <= p <= d_maxp d -> 0 <= s <= 22 ->
-  decode f bits = FFin neg m e -> 0 <= m -> m * 5 ^ s < 2 ^ 53 -> -1074 <= e -> e + s <= 971 ->
+  decode f bits = FFin neg m e -> m = a * 2 ^ t -> 0 <= a -> 0 <= t -> m < 2 ^ 53 -> a * 5 ^ s < 2 ^ 53 ->
+  -1074 <= e -> e + t + s <= 971 ->
   float_to_decimal oc f d p s bits = float_decimal_spec f p s bits.
 Proof.
-  intros oc f d p s bits neg m e Hd Hp Hs Hdec Hm Hfit Hlo Hhi.
+  intros oc f d p s bits neg m e a t Hd Hp Hs Hdec Hma Ha0 Ht Hm53 Hfit Hlo Hhi.
   unfold float_to_decimal, float_decimal_spec, to_f64. rewrite Hdec. rewrite Z.abs_eq by lia.
   destruct (powi10_exact s Hs) as [j2 [Hj2 Hpow]]. rewrite Hpow.
   assert (H5 : 0 < 5 ^ s) by (apply Z.pow_pos_nonneg; lia).
-  destruct (Z.eq_dec m 0) as [-> | Hm0].
+  assert (H2t : 0 < 2 ^ t) by (apply Z.pow_pos_nonneg; lia).
+  destruct (Z.eq_dec a 0) as [Ha | Ha].
   - (* zero *)
-    assert (Hz : round_float F64 neg 0 e = FFin neg 0 (-1074)) by reflexivity.
-    rewrite Hz. cbn [fmul]. rewrite Z.mul_0_l.
-    assert (Hz2 : forall n E, round_float F64 n 0 E = FFin n 0 (-1074)) by reflexivity.
-    rewrite Hz2.
+    assert (Hm0 : m = 0) by (rewrite Hma, Ha; apply Z.mul_0_l). rewrite Hm0.
+    assert (Hz : forall n E, round_float F64 n 0 E = FFin n 0 (-1074)) by reflexivity.
+    rewrite Hz. cbn [fmul]. rewrite Z.mul_0_l. rewrite Hz.
     assert (Hr : round_half_away_me 0 (-1074) = 0) by (vm_compute; reflexivity).
     rewrite Hr.
     assert (Hs0 : scaled_rha 0 e s = 0).
@@ -639,50 +641,55 @@ Proof.
     rewrite Hs0.
     assert (Hsg : forall b, signed b 0 = 0) by (intros []; reflexivity).
     rewrite !Hsg. cbv zeta. apply range_validate; auto.
-  - assert (Hmpos : 0 < m) by lia.
-    assert (Hm53 : m < 2 ^ 53) by nia.
+  - assert (Hapos : 0 < a) by lia.
+    assert (Hmpos : 0 < m) by (rewrite Hma; apply Z.mul_pos_pos; lia).
     (* widening to f64 is exact *)
     pose proof (round_float_exact F64 neg m 0 e) as Hw.
     change (f_mbits F64 + 1) with 53 in Hw. change (emin F64) with (-1074) in Hw. change (emax F64) with 971 in Hw.
     change (2 ^ 0) with 1 in Hw. rewrite Z.mul_1_r in Hw.
     assert (Hl1 : 0 <= Z.log2 m < 53) by (split; [apply Z.log2_nonneg | apply Z.log2_lt_pow2; lia]).
+    assert (Hlt : t <= Z.log2 m) by (rewrite Hma, Z.log2_mul_pow2 by lia; pose proof (Z.log2_nonneg a); lia).
     specialize (Hw ltac:(cbn; lia) Hmpos Hm53 ltac:(lia) ltac:(lia) ltac:(lia)).
     set (e1 := Z.max (e + 0 + (Z.log2 m + 1) - 53) (-1074)) in *.
     rewrite Hw. cbn [fmul]. rewrite Bool.xorb_false_r.
     (* the product is exact *)
     set (j1 := e + 0 - e1) in *. assert (Hj1 : 0 <= j1) by (subst j1 e1; lia).
-    replace (m * 2 ^ j1 * (5 ^ s * 2 ^ j2)) with (m * 5 ^ s * 2 ^ (j1 + j2))
-      by (rewrite Z.pow_add_r by lia; lia).
-    set (a := m * 5 ^ s) in *. assert (Ha : 0 < a) by (subst a; nia).
-    pose proof (round_float_exact F64 neg a (j1 + j2) (e1 + (s - j2))) as Hx.
+    replace (m * 2 ^ j1 * (5 ^ s * 2 ^ j2)) with (a * 5 ^ s * 2 ^ (t + j1 + j2))
+      by (rewrite Hma, !Z.pow_add_r by lia; lia).
+    set (c := a * 5 ^ s) in *. assert (Hc : 0 < c) by (subst c; nia).
+    pose proof (round_float_exact F64 neg c (t + j1 + j2) (e1 + (s - j2))) as Hx.
     change (f_mbits F64 + 1) with 53 in Hx. change (emin F64) with (-1074) in Hx. change (emax F64) with 971 in Hx.
-    assert (Hl2 : 0 <= Z.log2 a < 53) by (split; [apply Z.log2_nonneg | apply Z.log2_lt_pow2; lia]).
-    assert (HEt : e1 + (s - j2) + (j1 + j2) = e + s) by (subst j1; lia).
+    assert (Hl2 : 0 <= Z.log2 c < 53) by (split; [apply Z.log2_nonneg | apply Z.log2_lt_pow2; lia]).
+    assert (HEt : e1 + (s - j2) + (t + j1 + j2) = e + t + s) by (subst j1; lia).
     rewrite HEt in Hx.
-    specialize (Hx ltac:(cbn; lia) Ha Hfit ltac:(lia) ltac:(lia) ltac:(lia)).
-    set (e2 := Z.max (e + s + (Z.log2 a + 1) - 53) (-1074)) in *.
+    specialize (Hx ltac:(cbn; lia) Hc Hfit ltac:(lia) ltac:(lia) ltac:(lia)).
+    set (e2 := Z.max (e + t + s + (Z.log2 c + 1) - 53) (-1074)) in *.
     rewrite Hx.
-    assert (Hr : round_half_away_me (a * 2 ^ (e + s - e2)) e2 = scaled_rha m e s).
-    { replace e2 with ((e + s) - (e + s - e2)) at 2 by lia.
-      rewrite rha_me_scale by (subst e2; lia). subst a. apply rha_me_scaled; lia. }
+    assert (Hr : round_half_away_me (c * 2 ^ (e + t + s - e2)) e2 = scaled_rha m e s).
+    { replace e2 with ((e + t + s) - (e + t + s - e2)) at 2 by lia.
+      rewrite rha_me_scale by (subst e2; lia).
+      rewrite <- (rha_me_scaled m e s) by lia.
+      replace (m * 5 ^ s) with (c * 2 ^ t) by (subst c; rewrite Hma; lia).
+      replace (e + s) with ((e + t + s) - t) by lia. rewrite rha_me_scale by lia. reflexivity. }
     cbv zeta. rewrite Hr. apply range_validate; auto.
 Qed.
 
-Lemma float_to_decimal_exact_when_representable_val : forall oc f d p s bits neg m e,
+Lemma float_to_decimal_exact_when_representable_val : forall oc f d p s bits neg m e a t,
   std_dty d -> 0 <= p <= d_maxp d -> 0 <= s <= 22 ->
-  decode f bits = FFin neg m e -> 0 <= m -> m * 5 ^ s < 2 ^ 53 -> -1074 <= e -> e + s <= 971 ->
+  decode f bits = FFin neg m e -> m = a * 2 ^ t -> 0 <= a -> 0 <= t -> m < 2 ^ 53 -> a * 5 ^ s < 2 ^ 53 ->
+  -1074 <= e -> e + t + s <= 971 ->
   float_to_decimal oc f d p s bits =
   (let r := signed neg (if 0 <=? e then m * 10 ^ s * 2 ^ e else rha_div (m * 10 ^ s) (2 ^ (- e))) in
    if Z.abs r <? 10 ^ p then Ok r else Err).
 Proof.
-  intros oc f d p s bits neg m e Hd Hp Hs Hdec Hm Hfit Hlo Hhi.
-  rewrite (float_to_decimal_exact_when_representable oc f d p s bits neg m e Hd Hp Hs Hdec Hm Hfit Hlo Hhi).
+  intros oc f d p s bits neg m e a t Hd Hp Hs Hdec Hma Ha0 Ht Hm53 Hfit Hlo Hhi.
+  rewrite (float_to_decimal_exact_when_representable oc f d p s bits neg m e a t Hd Hp Hs Hdec Hma Ha0 Ht Hm53 Hfit Hlo Hhi).
   unfold float_decimal_spec. rewrite Hdec. reflexivity.
 Qed.
 
-Example float_representable_hyps_sat :      (* f64 2.5 as DECIMAL(5,2) *)
-  decode F64 4612811918334230528 = FFin false 5629499534213120 (-51) /\ 5629499534213120 * 5 ^ 2 < 2 ^ 53
-  /\ float_to_decimal true F64 D64 5 2 4612811918334230528 = Ok 250.
+Example float_representable_hyps_sat :      (* f64 2.5 = 5 * 2^50 * 2^-51 as DECIMAL(5,2) *)
+  decode F64 4612811918334230528 = FFin false 5629499534213120 (-51) /\ 5629499534213120 = 5 * 2 ^ 50
+  /\ 5 * 5 ^ 2 < 2 ^ 53 /\ float_to_decimal true F64 D64 5 2 4612811918334230528 = Ok 250.
 Proof. vm_compute. repeat split; reflexivity. Qed.
 
 Lemma decode_f32_bounds : forall bits neg m e, decode F32 bits = FFin neg m e -> 0 <= m < 2 ^ 24 /\ -149 <= e <= 104.
@@ -712,7 +719,7 @@ Proof.
   - destruct (decode_f32_bounds bits ng m e Hdec) as [Hm He].
     assert (H5 : 0 < 5 ^ s <= 5 ^ 12) by (split; [apply Z.pow_pos_nonneg; lia | apply Z.pow_le_mono_r; lia]).
     change (5 ^ 12) with 244140625 in H5. change (2 ^ 24) with 16777216 in Hm.
-    apply (float_to_decimal_exact_when_representable oc F32 d p s bits ng m e); auto; try lia.
+    apply (float_to_decimal_exact_when_representable oc F32 d p s bits ng m e m 0); auto; try lia.
     change (2 ^ 53) with 9007199254740992. nia.
 Qed.
 
